@@ -841,7 +841,8 @@ def c19_config(case):
         # single-fault configurations must raise ConfigError
         for extra in ('phase_fractions = [0.7, 0.31]', 'phase_fractions = [1.0]', 'phase_assemblage = ["olivine", "pyroxene"]', 'initial_olivine_fabric = "Z"',
                       'phase_fractions = [0.5, 0.25, 0.25]', 'phase_assemblage = ["olivine"]', 'phase_assemblage = [0, 7]', 'phase_fractions = [0.7, 0.3, 0.0]',
-                      'phase_fractions = [0.7, 0.2]', 'phase_fractions = [0.5, 0.0]', 'phase_fractions = [0.7, 0.29999]', 'phase_fractions = [-0.5, 1.4]'):
+                      'phase_fractions = [0.7, 0.2]', 'phase_fractions = [0.5, 0.0]', 'phase_fractions = [0.7, 0.29999]', 'phase_fractions = [-0.5, 1.4]',
+                      'phase_fractions = [nan, 0.5]', 'phase_fractions = [inf, -inf]', 'initial_olivine_fabric = 1', 'initial_olivine_fabric = "a"'):
             lines = ["[input]", 'velocity_gradient = ["simple_shear_2d", "Y", "X", 5e-6]', 'locations_initial = "start.scsv"', "timestep = 1e9", "[parameters]"]
             if "assemblage" not in extra:
                 lines.append('phase_assemblage = ["olivine", "enstatite"]')
